@@ -16,7 +16,7 @@ BOUNDS = {
              "count = #roots; ranks ARBITRARY non-negative ints), operand indices symbolic in range; "
              "FenwickTree: n in 1..8, array contents unbounded Ints and (second pass) unbounded Reals, delta unbounded, "
              "every index; base cases for the same n",
-    "thorough": "UnionFind n in 1..6; FenwickTree n in 1..16",
+    "thorough": "UnionFind n in 1..5; FenwickTree n in 1..16",
 }
 OUTSIDE = "n beyond the bound; float summation-order effects (values are exact ints / reals); out-of-range indices"
 ASSUMPTIONS = [
@@ -234,7 +234,7 @@ def h_fw_base(s, n, kind):
 
 
 def items(tier, rng):
-    nmax_uf = 4 if tier == "quick" else 6
+    nmax_uf = 4 if tier == "quick" else 5
     nmax_fw = 8 if tier == "quick" else 16
     out = []
     for n in range(1, nmax_uf + 1):
@@ -250,5 +250,5 @@ def items(tier, rng):
             for op in ("update", "prefix", "range_sum"):
                 out.append({"name": "fw_%s_%d%s" % (op, n, kind), "harness": "h_fw",
                             "params": {"n": n, "kind": kind, "op": op}})
-    out.sort(key=lambda it: -it["params"]["n"])
+    out.sort(key=lambda it: (0 if it["harness"].startswith("h_fw") else 1, -it["params"]["n"]))
     return out
